@@ -83,7 +83,7 @@ func TestVerifC08Histories(t *testing.T) {
 					step(act{Op: "del-xrd", FG: rapid.Bool().Draw(t, "fg")})
 				}
 			},
-			"del-rev":   func(t *rapid.T) { step(act{Op: "del-rev", FG: rapid.Bool().Draw(t, "fg")}) },
+			"del-rev": func(t *rapid.T) { step(act{Op: "del-rev", FG: rapid.Bool().Draw(t, "fg")}) },
 			"del-composed": func(t *rapid.T) {
 				tm := []string{"r0", "r1"}[:u.Templates]
 				if u.Usage {
@@ -117,9 +117,15 @@ func TestVerifC08Histories(t *testing.T) {
 					step(act{Op: "restart"})
 				}
 			},
+			// schedules at API-call granularity: another actor's whole step runs before a drawn call of an XRD reconcile
+			"rec-xrd-interloped": func(t *rapid.T) {
+				mid := interloperOps[rapid.IntRange(0, len(interloperOps)-1).Draw(t, "interloper")]
+				mid.I = idx(t)
+				step(act{Op: rapid.SampledFrom([]string{"rec-def", "rec-off"}).Draw(t, "xrdctrl"), Mid: &mid, MidK: rapid.IntRange(0, 6).Draw(t, "midk")})
+			},
 			"deactivate-rev": func(t *rapid.T) { step(act{Op: "deactivate-rev"}) },
 			"rec-rev2":       func(t *rapid.T) { step(drawFault(t, act{Op: "rec-rev"})) },
-			"lock-churn": func(t *rapid.T) { step(act{Op: "lock-churn", I: rapid.IntRange(0, 2).Draw(t, "n")}) },
+			"lock-churn":     func(t *rapid.T) { step(act{Op: "lock-churn", I: rapid.IntRange(0, 2).Draw(t, "n")}) },
 		})
 
 		// generator classification
@@ -139,6 +145,12 @@ func TestVerifC08Histories(t *testing.T) {
 		}
 		if w.inactiveInLockDeletes > 0 {
 			rec.Label("revision-deleted-while-inactive-and-still-in-lock")
+		}
+		if w.midRan > 0 {
+			rec.Label("interloper-ran")
+		}
+		if w.midExcluded > 0 {
+			rec.Label("interloper-excluded-known")
 		}
 		if w.crdDeletes > 0 {
 			rec.Label("crd-deleted-by-xrd-controller")
@@ -355,8 +367,8 @@ func directedRows() []directed {
 	one := func(op string) []act { return []act{{Op: op}} }
 	return []directed{
 		{
-			name: "background claim delete: finalizer goes once the XR is terminating",
-			u:    full(nil),
+			name:   "background claim delete: finalizer goes once the XR is terminating",
+			u:      full(nil),
 			script: cat(one("del-claim"), one("rec-claim"), one("rec-xr"), rep(4, act{Op: "gc"})),
 			checks: []milestone{
 				{after: 1, desc: "claim is gone after its first deletion reconcile", ok: func(w *world) bool { return w.gone("claim:0") }},
@@ -364,8 +376,8 @@ func directedRows() []directed {
 			},
 		},
 		{
-			name: "foreground claim delete: the claim waits until the XR is gone",
-			u:    full(func(u *universe) { u.Foreground = []bool{true} }),
+			name:   "foreground claim delete: the claim waits until the XR is gone",
+			u:      full(func(u *universe) { u.Foreground = []bool{true} }),
 			script: cat(one("del-claim"), one("rec-claim"), one("rec-claim"), one("rec-xr"), one("rec-claim"), rep(5, act{Op: "gc"}), one("rec-claim")),
 			checks: []milestone{
 				{after: 2, desc: "claim still holds its finalizer while the XR is terminating", ok: func(w *world) bool { return w.hasFin("claim:0", finClaim) }},
@@ -387,7 +399,7 @@ func directedRows() []directed {
 			name: "XRD delete: instances first, then Stop, then the CRD, then the finalizers",
 			u:    full(nil),
 			script: cat(one("del-xrd"), one("rec-def"), one("rec-def"), one("rec-off"), one("rec-off"), one("rec-xr"), one("rec-claim"),
-				rep(3, act{Op: "rec-def"}, act{Op: "rec-off"}, act{Op: "gc"}), rep(3, act{Op: "gc"})),
+				rep(3, act{Op: "rec-def"}, act{Op: "rec-off"}, act{Op: "gc"}), one("rec-xr"), rep(3, act{Op: "rec-def"}, act{Op: "rec-off"}, act{Op: "gc"}), rep(3, act{Op: "gc"})),
 			checks: []milestone{
 				{after: 2, desc: "the XR CRD survives while a terminating XR exists, XR controller still running", ok: func(w *world) bool {
 					return w.sim.Get(xrCRDKey) != nil && w.eng.running[xrCtrl] && !w.gone("xr:0")
@@ -406,7 +418,7 @@ func directedRows() []directed {
 			u:    full(nil),
 			script: cat(one("del-claim"), one("rec-claim"), one("rec-xr"), rep(3, act{Op: "gc"}), one("del-xrd"),
 				[]act{{Op: "rec-def", F: "err-server", K: 5}, {Op: "rec-def", F: "crash-after", K: 5}, {Op: "rec-off", F: "err-server", K: 4}},
-				rep(2, act{Op: "rec-def"}, act{Op: "rec-off"})),
+				rep(4, act{Op: "rec-def"}, act{Op: "rec-off"})),
 			checks: []milestone{
 				{after: -1, desc: "XRD and CRDs are gone", ok: func(w *world) bool {
 					return w.sim.Get(xrdKey) == nil && w.sim.Get(xrCRDKey) == nil && w.sim.Get(claimCRDKey) == nil
@@ -415,8 +427,8 @@ func directedRows() []directed {
 		},
 		{
 			// found by the fault DFS when the reconcilers were edited to swallow read errors: pinned
-			name: "a failing read of the XR / CRD is not taken for absence",
-			u:    full(nil),
+			name:   "a failing read of the XR / CRD is not taken for absence",
+			u:      full(nil),
 			script: []act{{Op: "del-claim"}, {Op: "rec-claim", F: "err-server", K: 1}, {Op: "del-xrd"}, {Op: "rec-def", F: "err-server", K: 2}, {Op: "rec-off", F: "err-server", K: 2}},
 			checks: []milestone{
 				{after: 1, desc: "the faulted call was the read of the XR and the claim keeps its finalizer", ok: func(w *world) bool {
@@ -431,8 +443,8 @@ func directedRows() []directed {
 			},
 		},
 		{
-			name: "package revision leaves the Lock before it is finalized",
-			u:    full(func(u *universe) { u.Revision = true }),
+			name:   "package revision leaves the Lock before it is finalized",
+			u:      full(func(u *universe) { u.Revision = true }),
 			script: cat(one("del-rev"), []act{{Op: "rec-rev", F: "err-server", K: 2}, {Op: "rec-rev", F: "err-conflict", K: 3}, {Op: "rec-rev"}}),
 			checks: []milestone{
 				{after: 0, desc: "revision is terminating and listed in the Lock", ok: func(w *world) bool { return !w.gone("rev") && w.lockHas(revName) }},
@@ -442,8 +454,8 @@ func directedRows() []directed {
 			},
 		},
 		{
-			name: "inactive revision: deactivation loses the Lock update to a conflict, then the revision is deleted",
-			u:    full(func(u *universe) { u.Revision = true }),
+			name:   "inactive revision: deactivation loses the Lock update to a conflict, then the revision is deleted",
+			u:      full(func(u *universe) { u.Revision = true }),
 			script: []act{{Op: "deactivate-rev"}, {Op: "rec-rev", F: "err-conflict", K: 3}, {Op: "del-rev"}, {Op: "rec-rev"}},
 			checks: []milestone{
 				{after: 1, desc: "the faulted call was the Lock update of the deactivation and the entry is still there", ok: func(w *world) bool {
@@ -455,8 +467,8 @@ func directedRows() []directed {
 			},
 		},
 		{
-			name: "inactive revision: deactivation fails on the Lock update (500, then crash), then the revision is deleted",
-			u:    full(func(u *universe) { u.Revision = true }),
+			name:   "inactive revision: deactivation fails on the Lock update (500, then crash), then the revision is deleted",
+			u:      full(func(u *universe) { u.Revision = true }),
 			script: []act{{Op: "deactivate-rev"}, {Op: "rec-rev", F: "err-server", K: 3}, {Op: "rec-rev", F: "crash-before", K: 3}, {Op: "del-rev", FG: true}, {Op: "rec-rev"}, {Op: "gc"}, {Op: "gc"}, {Op: "gc"}},
 			checks: []milestone{
 				{after: 2, desc: "still listed in the Lock", ok: func(w *world) bool { return w.lockHas(revName) }},
@@ -464,8 +476,8 @@ func directedRows() []directed {
 			},
 		},
 		{
-			name: "inactive revision: the Inactive edit and the delete are observed by the same reconcile",
-			u:    full(func(u *universe) { u.Revision = true }),
+			name:   "inactive revision: the Inactive edit and the delete are observed by the same reconcile",
+			u:      full(func(u *universe) { u.Revision = true }),
 			script: []act{{Op: "deactivate-rev"}, {Op: "del-rev"}, {Op: "rec-rev"}},
 			checks: []milestone{
 				{after: 1, desc: "terminating, Inactive, still listed in the Lock", ok: func(w *world) bool {
@@ -476,15 +488,17 @@ func directedRows() []directed {
 			},
 		},
 		{
-			name: "inactive revision: clean deactivation, deleted later",
-			u:    full(func(u *universe) { u.Revision = true }),
+			name:   "inactive revision: clean deactivation, deleted later",
+			u:      full(func(u *universe) { u.Revision = true }),
 			script: []act{{Op: "deactivate-rev"}, {Op: "rec-rev"}, {Op: "rec-rev"}, {Op: "del-rev"}, {Op: "rec-rev"}},
 			checks: []milestone{
 				{after: 1, desc: "deactivation removed the Lock entry, released the owned CRD, kept the revision and its finalizer", ok: func(w *world) bool {
 					crd := w.sim.Get(verifsim.Key{Group: crdGK.Group, Kind: crdGK.Kind, Name: revOwnedCRD})
 					return !w.lockHas(revName) && w.hasFin("rev", finRevision) && crd != nil && verifsim.ControllerUID(crd) == "" && len(verifsim.OwnerRefs(crd)) == 1
 				}},
-				{after: -1, desc: "revision gone", ok: func(w *world) bool { return w.gone("rev") && !w.lockHas(revName) && w.lockHas("provider-other-aaaaaaaaaaaa") }},
+				{after: -1, desc: "revision gone", ok: func(w *world) bool {
+					return w.gone("rev") && !w.lockHas(revName) && w.lockHas("provider-other-aaaaaaaaaaaa")
+				}},
 			},
 		},
 		{
@@ -516,8 +530,8 @@ func directedRows() []directed {
 		{
 			// Foreground deletion of the XR: the garbage collector deletes the Usage together with its siblings,
 			// so the Usage is terminating while the using resource (held by its provider) still exists.
-			name: "composed Usage deleted with its XR (foreground) waits for its using resource",
-			u:    full(func(u *universe) { u.Usage = true }),
+			name:   "composed Usage deleted with its XR (foreground) waits for its using resource",
+			u:      full(func(u *universe) { u.Usage = true }),
 			script: cat([]act{{Op: "addfin", J: 1}}, []act{{Op: "del-xr", FG: true}}, one("rec-xr"), rep(4, act{Op: "gc"}), one("rec-usage"), one("rec-usage")),
 			checks: []milestone{
 				{after: -1, desc: "the terminating Usage keeps its finalizer while the using resource exists", ok: func(w *world) bool {
@@ -636,4 +650,3 @@ func TestVerifC08MonitorsFire(t *testing.T) {
 		t.Fatalf("third-party finalizer removal was reported: %v", v)
 	}
 }
-
